@@ -345,7 +345,7 @@ def run(run):
                        '(checked by C08)', 'versions below 47 are not driven '
                        '(outside the README\'s supported range)']
     rng = run.rng('c09')
-    n = 1600 if thorough else 170
+    n = 8000 if thorough else 400
     for i in range(n):
         if not run.mine(i):
             continue
